@@ -137,6 +137,8 @@ class ParserTotal(BoundedCheck):
                 raised = ex
                 res.cover(type(ex).__name__)
             except BaseException as ex:  # noqa: BLE001
+                if type(ex).__name__ == '_CaseTimeout':
+                    raise                  # the per-case time limit of the harness: reported as non-termination by the caller
                 out.append(Violation('parse_model raises only ParserError, SymbolError or IndentationError', escape_signature(ex), s,
                                      'ParserError|SymbolError|IndentationError', f'{type(ex).__name__}: {str(ex)[:60]}', 'only_parser_errors'))
                 return out
@@ -172,6 +174,21 @@ class ParserTotal(BoundedCheck):
         if raised is not None:
             return out
         res.cover('returned')
+        # what parse_model returns belongs to the caller: altering it does not reach a later parse of the same text
+        if len(s) <= 3 or '\n' in s or len(out) == 0 and hash(s) % 40 == 0:
+            kept = list(symbols)
+            symbols.append('<mutated by the caller>')
+            try:
+                again = fsic.parse_model(s)
+            except Exception:  # noqa: BLE001
+                again = None
+            symbols.pop()
+            for k_, v_ in namespaces.items():          # (whatever the second parse leaked is the same recorded effect as the first: undo it)
+                for nm_ in set(v_) - names_before[k_] - {'__warningregistry__'}:
+                    del v_[nm_]
+            if again is not None and (again is symbols or list(again) != kept):
+                out.append(Violation('parsing has no effect outside the returned objects (a later parse of the same text returns a fresh, equal list)', 'c13.side-effect:shared-result', s,
+                                     len(kept), len(again), 'no_effect'))
         try:
             Model = fsic.build_model(symbols)
             Model(range(3))
